@@ -9,7 +9,7 @@ use crate::util::{guard, par_map, Kv};
 
 pub fn meta(_ctx: &Ctx) -> Meta {
     Meta {
-        rule: "6 base networks (dense ranges; shape-preserving conv / deconv ranges; conv(k2,p1)+pool(k2,s1) composite; max-pool as range entry; flat dense output re-read as 1x3x3 at the range entry; range ending in a layer that is flattened for a following dense layer) x EVERY range a <= b whose output shape equals the input shape of a (start / middle / end) x k in 1..3 (4, 5, 6, 9 for two ranges per network) x all 5 accumulations x input skips on/off (with input skips also under a multiplicative / overwrite SKIP-connection accumulation, which must not matter) x 2 exact integer valuations (one of them with inputs scaled by 2^-20), plus pairs of disjoint ranges and pairs of OVERLAPPING ranges (nested or sharing a layer; for the outer loop's iterations both readings - plain layers, or layers with the inner loop - are accepted); plus loops NEAR A FIXED POINT: 5 ranges of a 3-layer 2->2 linear network whose repeated map is x -> g x + (1-g) (g = 2 repelling, g = 1/2 attracting) started 1 ulp (8 ulp) from the fixed point, k in {8,16,22}, all 5 accumulations - successive iterates differ by a few ulp and all arithmetic is exact. Oracles: reference interpreter y_0=f(x_a), y_t=f(y_{t-1}[+x_a]), out=comb(y_0;y_1..y_k); with overwrite (no input skips) bit-equality with the plain network in which layers a..b are repeated k+1 times with the same weights. Non-trivial = reference output has >= 2 distinct non-zero entries".into(),
+        rule: "6 base networks (dense ranges; shape-preserving conv / deconv ranges; conv(k2,p1)+pool(k2,s1) composite; max-pool as range entry; flat dense output re-read as 1x3x3 at the range entry; range ending in a layer that is flattened for a following dense layer) x EVERY range a <= b whose output shape equals the input shape of a (start / middle / end) x k in 1..3 (4, 5, 6, 9 for two ranges per network) x all 5 accumulations x input skips on/off (with input skips also under a multiplicative / overwrite SKIP-connection accumulation, which must not matter) x 2 exact integer valuations (one of them with inputs scaled by 2^-20), plus pairs of disjoint ranges (one or both with input skips) and pairs of OVERLAPPING ranges (nested or sharing a layer; for the outer loop's iterations both readings - plain layers, or layers with the inner loop - are accepted); plus loops NEAR A FIXED POINT: 5 ranges of a 3-layer 2->2 linear network whose repeated map is x -> g x + (1-g) (g = 2 repelling, g = 1/2 attracting) started 1 ulp (8 ulp) from the fixed point, k in {8,16,22}, all 5 accumulations - successive iterates differ by a few ulp and all arithmetic is exact. Oracles: reference interpreter y_0=f(x_a), y_t=f(y_{t-1}[+x_a]), out=comb(y_0;y_1..y_k); with overwrite (no input skips) bit-equality with the plain network in which layers a..b are repeated k+1 times with the same weights. Non-trivial = reference output has >= 2 distinct non-zero entries".into(),
         bound: "k <= 3, ranges of <= 3 layers, planes 3x3".into(),
         exhaustive: true,
         assumptions: vec!["tolerance 2e-6*max|reference| (mean over 3 operands is not exact); the unrolled-network differential is bit-exact".into()],
@@ -102,6 +102,9 @@ pub fn nets(thorough: bool) -> Vec<Net> {
                         out.push(n.clone());
                         // the same two loops registered in the opposite order
                         n.loopbacks.reverse();
+                        out.push(n.clone());
+                        // both loops with input skips (each must add ITS OWN original input)
+                        n.loopbacks = vec![(b1, a1, 1, true), (b2, a2, 2, true)];
                         out.push(n);
                     }
                 }
